@@ -27,6 +27,8 @@ CONSTANTS NR, NC, NV,      \* rows, columns, number of distinct non-zero value i
           WPV, CPLX,       \* words per value (1|2), values per entry (1 real | 2 complex)
           Ascii,           \* TRUE: formatted file (dense NW counts NUMBERS, strings still count words)
           PerLine,         \* ASCII: values per line
+          RowOffset,       \* the NR modelled rows sit at RowOffset+1 .. RowOffset+NR of a taller matrix (high row numbers
+                           \* exercise the IS = irow + 65536(L+1) arithmetic up to the nonbigmat limit of 65535 rows)
           WriterOnly,      \* TRUE: only the encodings pyYeti's writer produces
           Export
 
@@ -71,14 +73,14 @@ Layouts == {"dense", "bigmat", "nonbigmat"}
 \* abstract column record
 StringRec(layout, col, s) ==
   LET L == s[2] * W IN
-  [ hw   |-> IF layout = "bigmat" THEN <<L + 1, s[1]>>
-             ELSE IF layout = "nonbigmat" THEN <<s[1] + 65536 * (L + 1)>> ELSE <<>>,
-    r0   |-> s[1], n |-> s[2],
+  [ hw   |-> IF layout = "bigmat" THEN <<L + 1, s[1] + RowOffset>>
+             ELSE IF layout = "nonbigmat" THEN <<(s[1] + RowOffset) + 65536 * (L + 1)>> ELSE <<>>,
+    r0   |-> s[1] + RowOffset, n |-> s[2],
     vals |-> [k \in 1..s[2] |-> col[s[1] + k - 1]] ]
 
 ColRec(layout, c, col, strs) ==
   [ icol |-> c,
-    irow |-> IF layout = "dense" THEN strs[1][1] ELSE 0,
+    irow |-> IF layout = "dense" THEN strs[1][1] + RowOffset ELSE 0,
     nw   |-> IF layout = "dense" THEN (IF Ascii THEN strs[1][2] * CPLX ELSE strs[1][2] * W)
              ELSE LET RECURSIVE S(_) S(i) == IF i = 0 THEN 0 ELSE S(i - 1) + strs[i][2] * W + (IF layout = "bigmat" THEN 2 ELSE 1)
                   IN S(Len(strs)),
@@ -94,7 +96,7 @@ Legal(layout, M, ch) ==
 SeqOfSet(S) == LET RECURSIVE H(_, _) H(i, acc) == IF i > NC THEN acc ELSE H(i + 1, IF i \in S THEN Append(acc, i) ELSE acc)
                IN H(1, <<>>)
 Encode(layout, M, ch) ==
-  [ hdr  |-> [ncols |-> NC, nrows |-> IF layout = "bigmat" THEN -NR ELSE NR, layout |-> layout],
+  [ hdr  |-> [ncols |-> NC, nrows |-> IF layout = "bigmat" THEN -(NR + RowOffset) ELSE NR + RowOffset, layout |-> layout],
     cols |-> LET cs == SeqOfSet(NonNull(M)) IN
              [i \in 1..Len(cs) |-> ColRec(layout, cs[i], ColOf(M, cs[i]), ch[cs[i]])],
     trailer |-> [icol |-> NC + 1, irow |-> 1, nw |-> IF Ascii THEN 1 ELSE WPV] ]
@@ -103,7 +105,9 @@ Encode(layout, M, ch) ==
 (* Reader automaton: the arithmetic of _rd_*_binary/_ascii and the skipper  *)
 Zero == [x \in Rows \X Cols |-> 0]
 
-Put(X, c, r0, vals) == [x \in Rows \X Cols |-> IF x[2] = c /\ x[1] >= r0 /\ x[1] < r0 + Len(vals) THEN vals[x[1] - r0 + 1] ELSE X[x]]
+\* r0 is the absolute 1-based row the reader computed; the model keeps only rows RowOffset+1..RowOffset+NR
+Put(X, c, r0abs, vals) == LET r0 == r0abs - RowOffset IN
+   [x \in Rows \X Cols |-> IF x[2] = c /\ x[1] >= r0 /\ x[1] < r0 + Len(vals) THEN vals[x[1] - r0 + 1] ELSE X[x]]
 
 \* returns <<X, nwords left>>; the reader loops `while nwords > 0`
 RECURSIVE RdStrings(_, _, _, _, _, _)
